@@ -1257,7 +1257,16 @@ fn search_recv(seed: u64, budget: usize, cancel: bool) -> Option<Value> {
             2 => (0..1 + rng.below(5)).map(|_| 1 + rng.below(40)).collect(),
             _ => vec![1 + rng.below(wire.len())],
         };
-        let pending: Vec<usize> = if cancel { (0..rng.below(6)).map(|_| rng.below(12)).collect() } else { vec![] };
+        let mut pending: Vec<usize> = if cancel { (0..rng.below(6)).map(|_| rng.below(12)).collect() } else { vec![] };
+        let mut cuts = cuts;
+        // now and then (cancel runs): a frame of 70-120 KB arriving in pieces of tens of KB, the receive abandoned after a few of them -
+        // tens of KB of a partial frame are buffered (msg_pos == 0, a buffer grown far beyond its first step) when the receive restarts
+        if cancel && rng.below(64) == 0 {
+            let big = format!(r#"{{"method":"a.S","parameters":{{"s":"{}"}}}}"#, "x".repeat(70_000 + rng.below(50_000)));
+            let mut w2 = big.into_bytes(); w2.push(0); w2.extend_from_slice(&wire); wire = w2;
+            cuts = vec![20_000 + rng.below(30_000)];
+            pending = vec![1 + rng.below(4)];
+        }
         let failed_sends = if rng.below(6) == 0 { 1 + rng.below(2) } else { 0 };
         let (w2, c2, p2) = (wire.clone(), cuts.clone(), pending.clone());
         let (exp, got) = match std::panic::catch_unwind(move || run_recv(&w2, &c2, &p2, failed_sends)) {
